@@ -47,6 +47,9 @@ def run(ctx):
         files = {n: L.gen_content(rng, rng.choice(["random", "dupslices"]), rng.choice([5, 9, 16, 33]), 4) for n in names}
         sets.append(P.PSet(files, 4, rng.choice([2, 3, 5]), g=1))
     sets.append(P.PSet({"x%d" % i: L.gen_content(rng, "random", 7 + i) for i in range(6)}, 8, 4, g=1, tag="6 files, sampled permutations"))
+    # slice sizes that are not a multiple of the 16-byte chunk unit (the goroutine split clips the last chunk)
+    sets.append(P.PSet({"p": L.gen_content(rng, "random", 40 * 3 + 5), "q": L.gen_content(rng, "random", 41)}, 40, 3, g=1, tag="slice 40"))
+    sets.append(P.PSet({"p": L.gen_content(rng, "random", 100 * 2 + 9), "q": L.gen_content(rng, "random", 100)}, 100, 3, g=1, tag="slice 100"))
     lines, meta = [], []
     for ps in sets:
         ps.bystanders = {}
@@ -56,7 +59,7 @@ def run(ctx):
         lines.append(ref); meta.append((ps, "reference", None))
         for pm in perms:
             lines.append(ps.create_line("mem", order=pm, g=1)); meta.append((ps, "perm", list(pm)))
-        for g in (2, 7, 32):
+        for g in (2, 4, 5, 6, 7, 8, 32):
             lines.append(ps.create_line("mem", order=names, g=g)); meta.append((ps, "g", g))
         lines.append(ref); meta.append((ps, "repeat", None))
         lines.append(ps.create_line("real", order=names, g=3)); meta.append((ps, "real-g3", None))
